@@ -140,3 +140,12 @@ func VerifGroupForkSwitch(ancestor *types.Group, branch []*types.Group) (error, 
 	}
 	return nil, fork.triggerOnChain(groupChainImpl)
 }
+
+// VerifServeGroupRequest does what the sync server does with the group chain
+// when a peer asks for the group at a height (syncGroupReqHandler): it reads
+// the local height and the group without taking the chain lock.
+func VerifServeGroupRequest(height uint64) (*types.Group, bool) {
+	localHeight := groupChainImpl.height()
+	group := groupChainImpl.getGroupByHeight(height)
+	return group, height >= localHeight
+}
